@@ -286,7 +286,7 @@ func run(c *core.Ctx) error {
 }
 
 func engineB(c *core.Ctx) error {
-	nCorp := c.Pick(28, 700)
+	nCorp := c.Pick(28, 500)
 	nQ := c.Pick(15, 30)
 	depth := c.Pick(2, 3)
 	var mu sync.Mutex
